@@ -200,6 +200,7 @@ class Tree:
     def _load(self) -> None:
         if not os.path.isdir(self.pkgdir):
             raise AnalysisError(f"package directory {self.pkgdir} not found")
+        parsed = []
         for dirpath, dirnames, filenames in os.walk(self.pkgdir):
             dirnames[:] = sorted(d for d in dirnames if d not in ("__pycache__",) and not d.startswith("."))
             for fn in sorted(filenames):
@@ -221,11 +222,17 @@ class Tree:
                     tree = ast.parse(src, filename=rel)
                 except (SyntaxError, UnicodeDecodeError, ValueError) as e:
                     raise AnalysisError(f"cannot parse {rel}: {e}")
-                if self.canonical:
-                    from .canon import canonicalise
-                    tree = canonicalise(rel, tree)
-                set_parents(tree)
-                self.modules[name] = Module(name, path, rel, src, tree, hashlib.sha256(raw).hexdigest())
+                parsed.append((name, path, rel, src, tree, raw))
+        if self.canonical:
+            from . import canon
+            canon.SIGNATURES.clear()
+            canon.SIGNATURES.update(canon.signature_table({rel: tree for _, _, rel, _, tree, _ in parsed}))
+        for name, path, rel, src, tree, raw in parsed:
+            if self.canonical:
+                from .canon import canonicalise
+                tree = canonicalise(rel, tree)
+            set_parents(tree)
+            self.modules[name] = Module(name, path, rel, src, tree, hashlib.sha256(raw).hexdigest())
 
     def _index(self) -> None:
         for m in self.modules.values():
